@@ -2,6 +2,8 @@ package np
 
 import (
 	"fmt"
+	"go/token"
+	"go/types"
 	"sort"
 	"strings"
 
@@ -135,6 +137,22 @@ func Sites(fn *ssa.Function) []Site {
 			case *ssa.Send:
 				s.Kind = "send"
 				s.Args = []string{t.T(x.Chan), t.T(x.X)}
+			case *ssa.Select:
+				s.Kind = "select"
+				s.Args = []string{fmt.Sprintf("blocking=%v", x.Blocking)}
+				for _, st := range x.States {
+					if st.Dir == types.SendOnly {
+						s.Args = append(s.Args, "send "+t.T(st.Chan)+" <- "+t.T(st.Send))
+					} else {
+						s.Args = append(s.Args, "recv "+t.T(st.Chan))
+					}
+				}
+			case *ssa.UnOp:
+				if x.Op != token.ARROW {
+					continue
+				}
+				s.Kind = "recv"
+				s.Args = []string{t.T(x.X)}
 			case *ssa.Return:
 				s.Kind = "return"
 				for _, r := range x.Results {
